@@ -18,11 +18,30 @@ inductive Escapes (P : Prog) (s : Site) : Fn → Prop
 /-- the process terminates abnormally through `s`: the exception leaves an entry point -/
 def Aborts (P : Prog) (s : Site) : Prop := ∃ e ∈ P.entries, Escapes P s e
 
+theorem bitOf_eq_testBit (m f : Nat) : bitOf m f = m.testBit f := by
+  unfold bitOf Nat.testBit
+  have h : Nat.shiftRight m f = m >>> f := rfl
+  rw [h, Nat.one_and_eq_mod_two]
+  rcases Nat.mod_two_eq_zero_or_one (m >>> f) with h0 | h1
+  · simp [h0]; rfl
+  · simp [h1]
+
+theorem bitOf_of_lor {a r f : Nat} (h : Nat.beq (Nat.lor a r) a = true) (hr : bitOf r f = true) :
+    bitOf a f = true := by
+  have h' : a ||| r = a := Nat.eq_of_beq_eq_true h
+  rw [bitOf_eq_testBit] at hr ⊢
+  rw [← h', Nat.testBit_or, hr]; simp
+
+theorem mem_any {c : Cert} {types : List Ty} (hw : c.wf types = true) {t : Ty} (ht : t ∈ types) {f : Fn}
+    (hm : c.mem t f = true) : bitOf c.any f = true := by
+  simp only [Cert.wf, List.all_eq_true] at hw
+  exact bitOf_of_lor (hw t ht) hm
+
 theorem escape_sound {P : Prog} {c : Cert} {types : List Ty} {excl : List Nat}
     (hc : closed P c types excl = true) {s : Site} (hs : s ∈ P.sites) (hex : s.id ∉ excl)
     {f : Fn} (h : Escapes P s f) : c.mem s.ty f = true := by
   simp only [closed, Bool.and_eq_true, List.all_eq_true] at hc
-  obtain ⟨hsites, hrows⟩ := hc
+  obtain ⟨⟨hwf, hsites⟩, hrows⟩ := hc
   obtain ⟨hty, hok⟩ := hsites s hs
   have htyIn : s.ty ∈ types := by simpa using hty
   induction h with
@@ -35,24 +54,28 @@ theorem escape_sound {P : Prog} {c : Cert} {types : List Ty} {excl : List Nat}
     · exact hm
   | call hgEsc hr hfn hf ih =>
     have hR := hrows _ hr
-    simp only [rowOk, List.all_eq_true] at hR
-    have hT := hR _ htyIn
-    rw [hfn] at hT
-    simp only [Bool.or_eq_true, Bool.not_eq_true', Bool.and_eq_true, List.all_eq_true] at hT
-    rcases hT with hT | ⟨hT, _⟩
-    · rw [ih] at hT; cases hT
-    · exact hT _ hf
+    simp only [rowOk, Bool.or_eq_true, Bool.not_eq_true', List.all_eq_true] at hR
+    rw [hfn] at hR
+    rcases hR with hR | hR
+    · rw [mem_any hwf htyIn ih] at hR; cases hR
+    · have hT := hR _ htyIn
+      simp only [Bool.or_eq_true, Bool.not_eq_true', Bool.and_eq_true, List.all_eq_true] at hT
+      rcases hT with hT | ⟨hT, _⟩
+      · rw [ih] at hT; cases hT
+      · exact hT _ hf
   | pcall hgEsc hr hfn he hp ih =>
     have hR := hrows _ hr
-    simp only [rowOk, List.all_eq_true] at hR
-    have hT := hR _ htyIn
-    rw [hfn] at hT
-    simp only [Bool.or_eq_true, Bool.not_eq_true', Bool.and_eq_true, List.all_eq_true] at hT
-    rcases hT with hT | ⟨_, hT⟩
-    · rw [ih] at hT; cases hT
-    · rcases hT _ he with h1 | h1
-      · rw [hp] at h1; cases h1
-      · exact h1
+    simp only [rowOk, Bool.or_eq_true, Bool.not_eq_true', List.all_eq_true] at hR
+    rw [hfn] at hR
+    rcases hR with hR | hR
+    · rw [mem_any hwf htyIn ih] at hR; cases hR
+    · have hT := hR _ htyIn
+      simp only [Bool.or_eq_true, Bool.not_eq_true', Bool.and_eq_true, List.all_eq_true] at hT
+      rcases hT with hT | ⟨_, hT⟩
+      · rw [ih] at hT; cases hT
+      · rcases hT _ he with h1 | h1
+        · rw [hp] at h1; cases h1
+        · exact h1
 
 /-- closed certificate + clear entry points ⇒ no site outside the excluded list can abort the process -/
 theorem no_abort {P : Prog} {c : Cert} {types : List Ty} {excl : List Nat}
@@ -63,45 +86,44 @@ theorem no_abort {P : Prog} {c : Cert} {types : List Ty} {excl : List Nat}
   simp only [entriesClear, List.all_eq_true] at he
   have hty : s.ty ∈ types := by
     simp only [closed, Bool.and_eq_true, List.all_eq_true] at hc
-    simpa using (hc.1 s hs).1
+    simpa using (hc.1.2 s hs).1
   have := he e heIn s.ty hty
   rw [hm] at this
   cases this
 
-theorem hasEdge_step {P : Prog} {s : Site} {g f : Fn} (h : hasEdge P s.ty g f = true)
+theorem edgeAt_step {P : Prog} {s : Site} {g f : Fn} {idx : Nat} (h : edgeAt P s.ty g f idx = true)
     (hg : Escapes P s g) : Escapes P s f := by
-  simp only [hasEdge, List.any_eq_true, Bool.and_eq_true, Bool.or_eq_true, beq_iff_eq] at h
-  obtain ⟨r, hr, hfn, hcase⟩ := h
-  rcases hcase with hc | hp
-  · exact Escapes.call hg hr hfn (by simpa using hc)
-  · obtain ⟨e, he, hcaller, hpass⟩ := hp
-    have := Escapes.pcall hg hr hfn he hpass
-    rw [hcaller] at this
-    exact this
+  unfold edgeAt at h
+  split at h
+  · cases h
+  · rename_i r hr
+    have hmem : r ∈ P.rows := List.mem_of_getElem? hr
+    simp only [Bool.and_eq_true, Bool.or_eq_true, beq_iff_eq, List.any_eq_true] at h
+    obtain ⟨hfn, hcase⟩ := h
+    rcases hcase with hc | ⟨e, he, hcaller, hpass⟩
+    · exact Escapes.call hg hmem hfn (by simpa using hc)
+    · have := Escapes.pcall hg hmem hfn he hpass
+      rw [hcaller] at this
+      exact this
 
-theorem chainOk_escapes {P : Prog} {s : Site} : ∀ (hops : List Fn) (cur : Fn),
+theorem chainOk_escapes {P : Prog} {s : Site} : ∀ (hops : List (Fn × Nat)) (cur : Fn),
     Escapes P s cur → chainOk P s.ty cur hops = true → ∃ e ∈ P.entries, Escapes P s e
   | [], cur, hcur, h => by
     simp only [chainOk] at h
     exact ⟨cur, by simpa using h, hcur⟩
-  | nxt :: rest, cur, hcur, h => by
+  | (nxt, idx) :: rest, cur, hcur, h => by
     simp only [chainOk, Bool.and_eq_true] at h
-    exact chainOk_escapes rest nxt (hasEdge_step h.1 hcur) h.2
+    exact chainOk_escapes rest nxt (edgeAt_step h.1 hcur) h.2
 
 /-- a checked path is a real propagation chain of the model: the listed site aborts the process -/
 theorem pathOk_aborts {P : Prog} {p : Path} (h : pathOk P p = true) :
     ∃ s ∈ P.sites, s.id = p.site ∧ Aborts P s := by
   simp only [pathOk, List.any_eq_true, Bool.and_eq_true, beq_iff_eq, Bool.not_eq_true'] at h
-  obtain ⟨s, hs, ⟨⟨⟨hid, hg⟩, hn⟩, hm⟩⟩ := h
+  obtain ⟨s, hs, ⟨⟨⟨⟨hid, hg⟩, hn⟩, hf⟩, hm⟩⟩ := h
   refine ⟨s, hs, hid, ?_⟩
-  cases hh : p.hops with
-  | nil => rw [hh] at hm; cases hm
-  | cons f0 rest =>
-    rw [hh] at hm
-    simp only [Bool.and_eq_true, beq_iff_eq] at hm
-    have h0 : Escapes P s f0 := by
-      rw [hm.1]; exact Escapes.origin hg hn
-    exact chainOk_escapes rest f0 h0 hm.2
+  have h0 : Escapes P s p.first := by
+    rw [hf]; exact Escapes.origin hg hn
+  exact chainOk_escapes p.hops p.first h0 hm
 
 /-! ### handler matching -/
 
